@@ -1075,6 +1075,12 @@ func (w *efWalker) atReturn(rs *ast.ReturnStmt, st absState, t *tracked, path []
 				}
 			}
 		}
+		for _, p := range t.places {
+			if p.field && ef.fieldTestedSomewhere(f, p) {
+				w.idiom("sticky error field " + p.String() + " (tested by the owner's methods)")
+				return
+			}
+		}
 		w.fail(fmt.Sprintf("bare return while the error is %s and not a named result", st), path, rs)
 		return
 	}
